@@ -13,9 +13,10 @@ import isr_explicit
 from numeric import P
 
 LEVEL = "proof"
-RULE = ("for variants pp/ip/ea (dip/dea thorough), all class pairs of the "
-        "two lowest classes and orders 0..2 (3 thorough for the lowest "
-        "class): the derived overlap of intermediate states is compared by "
+RULE = ("for variants pp/ip/ea/dip/dea: lowest diagonal block orders 0..2 (3 "
+        "thorough), couplings of neighbouring classes orders 0..2 (third "
+        "class - triples - thorough only; dip/dea quick: couplings only), "
+        "first satellite diagonal order 0 (1 thorough): the derived overlap of intermediate states is compared by "
         "the Coq validator - for arbitrary ground-state amplitude tensors - "
         "with the antisymmetrised product of Kronecker deltas (order 0, equal "
         "classes) resp. with 0; the precursor overlap is compared with its "
@@ -29,11 +30,36 @@ ASSUMPTIONS = ["tensor models respect declared symmetries; amplitudes are "
                "orders and classes as listed; the statement for all orders "
                "is not a Coq theorem (partial)"]
 
-NAMES = {"ph": ("ia", "kc"), "pphh": ("ijab", "klcd"), "h": ("i", "k"),
-         "p": ("a", "c"), "hhp": ("ija", "klc"), "pph": ("iab", "kcd"),
-         "hh": ("ij", "kl"), "pp": ("ab", "cd")}
-CLASSES = {"pp": ["ph", "pphh"], "ip": ["h", "hhp"], "ea": ["p", "pph"],
-           "dip": ["hh"], "dea": ["pp"]}
+def _names(space):
+    """(bra names, ket names) of an excitation class: disjoint letters"""
+    no, nv = space.count("h"), space.count("p")
+    return ("ijk"[:no] + "abc"[:nv], "lmn"[:no] + "def"[:nv])
+
+
+NAMES = {sp: _names(sp) for sp in (
+    "ph", "pphh", "ppphhh", "h", "hhp", "hhhpp", "p", "pph", "ppphh", "hh",
+    "hhhp", "pp", "ppph")}
+CLASSES = {"pp": ["ph", "pphh", "ppphhh"], "ip": ["h", "hhp", "hhhpp"],
+           "ea": ["p", "pph", "ppphh"], "dip": ["hh", "hhhp"],
+           "dea": ["pp", "ppph"]}
+
+
+def block_plan(variant, quick, only_prec):
+    """[(bra class, ket class, max order)] - lowest diagonal block through
+    order 2 (3 thorough), couplings of neighbouring classes through order 2
+    (dip/dea in the quick tier: couplings only; third class only in the
+    thorough tier), first satellite diagonal order 0 (1 thorough)"""
+    c = CLASSES[variant]
+    if only_prec:
+        return [(c[0], c[0], 3)]
+    plan = []
+    if not (quick and variant in ("dip", "dea")):
+        plan.append((c[0], c[0], 2 if quick else 3))
+        plan.append((c[1], c[1], 0 if quick else 1))
+    plan += [(c[0], c[1], 2), (c[1], c[0], 2)]
+    if not quick and len(c) > 2:
+        plan += [(c[1], c[2], 2), (c[2], c[1], 2), (c[0], c[2], 1)]
+    return plan
 
 
 def antisym_delta(bra, ket):
@@ -63,7 +89,7 @@ def expected_overlap(bs, ks):
 def run(ctx):
     quick = ctx.tier == "quick"
     rng = ctx.rng
-    variants = ["pp", "ip", "ea"] + ([] if quick else ["dip", "dea"])
+    variants = ["pp", "ip", "ea", "dip", "dea"]
     configs = [("mp", False), ("mp", True)] + ([] if quick
                                                else [("re", False)])
     pairs = []
@@ -75,18 +101,7 @@ def run(ctx):
                                 first_order_singles=singles)
         for variant in (["pp"] if only_prec else variants):
             isr = adcgen.IntermediateStates(gs, variant)
-            cls = CLASSES[variant]
-            for bs, ks in itertools.product(cls, cls):
-                lowest = (bs == cls[0] and ks == cls[0])
-                if only_prec and not lowest:
-                    continue
-                # cross-class overlaps through second order also in the quick
-                # tier: this is where the projection prefactor defect
-                # (fixed in be45c67) showed
-                max_order = (2 if quick and not only_prec else 3) \
-                    if lowest else 2
-                if bs != cls[0] and ks != cls[0]:
-                    max_order = 0 if quick else 1
+            for bs, ks, max_order in block_plan(variant, quick, only_prec):
                 for order in range(max_order + 1):
                     ib, ik = NAMES[bs][0], NAMES[ks][1]
                     tg = get_symbols(ib + ik)
